@@ -44,6 +44,8 @@ fn list_of(class: &str, a1: &str, a2: &str) -> Value {
         "ok" => json!([a1, a2]),
         "empty" => json!([]),
         "dup" => json!([a1, a1]),
+        "dupfar" => json!([a1, a2, a1]),
+        "dupcasefar" => json!([a1.to_uppercase(), a2, a1]),
         "onewrongprefix" => json!([a1, addr_of("wrongprefix", a2)]),
         "onebadchecksum" => json!([a1, addr_of("badchecksum", a2)]),
         _ => json!([a1, a1.to_uppercase()]),
